@@ -428,6 +428,19 @@ class BlackbirdProgram:
 
                     prog._var[k] = populated_array
 
+                # once every parameter in it has a value, the array is a numeric array again, as if
+                # the values had been written in the script (an object array cannot be serialized)
+                if v.dtype == object and not any(isinstance(x, sym.Expr) for x in v.flat):
+                    numeric = np.array(v.tolist())
+                    if numeric.dtype != object:
+                        prog._var[k] = numeric
+                        for op in prog._operations: # pylint: disable=protected-access
+                            if 'args' in op:
+                                op['args'] = [numeric if a is v else a for a in op['args']]
+                                op['kwargs'] = {
+                                    kw: (numeric if a is v else a) for kw, a in op['kwargs'].items()
+                                }
+
         return prog
 
     def __len__(self):
